@@ -202,6 +202,43 @@ def afterA (M : Machine) (obj : HostVal) (code : Bytes) (fuel endPos nextPos : N
   | .done o => afterS M obj code fuel endPos stack polls depth o
   | .next env out => loop M obj code fuel nextPos stack ⟨env, out, polls, depth⟩
 
+/-- glue with an offset: after `n1` turns the run stands at `f` with `e1` more fuel than counted -/
+theorem chainE {M : Machine} {obj : HostVal} {code : Bytes} {n1 e1 ip : Nat} {stack : List Value} {st : RunSt}
+    {f g : Nat → Res × RunSt} (h1 : ∀ fuel, loop M obj code (fuel + n1) ip stack st = f (fuel + e1)) (n2 : Nat)
+    (h2 : ∀ fuel, f (fuel + n2) = g fuel) : ∀ fuel, loop M obj code (fuel + (n2 + n1)) ip stack st = g (fuel + e1) := by
+  intro fuel
+  rw [← Nat.add_assoc, h1 (fuel + n2), show fuel + n2 + e1 = (fuel + e1) + n2 by omega, h2]
+
+theorem finish_instrE {M : Machine} {obj : HostVal} {code : Bytes} {n1 e1 ip0 ip : Nat} {stack0 stack : List Value}
+    {st0 : RunSt} {env : Env} {out : Str} {polls depth : Nat} {i : Instr} {rest : List Instr}
+    (h1 : ∀ fuel, loop M obj code (fuel + n1) ip0 stack0 st0 = loop M obj code (fuel + e1) ip stack ⟨env, out, polls, depth⟩)
+    (hc : CodeAt code ip (i :: rest)) (hM : NeverDone M) (harg : storedArg i = i.arg ∨ i.op.length = 1)
+    (a : Nat) (ha : a = storedArg i) (g : Nat → Res × RunSt)
+    (hstep : ∀ fuel, (match step M obj code.length (fun c s => loop M obj c fuel 0 [] s) i.op.toNat a (ip + i.size) stack
+              ⟨env, out, polls + 1, depth⟩ with
+       | .cont ip' stack' st' => loop M obj code fuel ip' stack' st'
+       | .halt r st' => (r, st')) = g fuel) :
+    ∀ fuel, loop M obj code (fuel + (1 + n1)) ip0 stack0 st0 = g (fuel + e1) := by
+  apply chainE (f := fun x => loop M obj code x ip stack ⟨env, out, polls, depth⟩) h1 1
+  intro fuel
+  rw [run_instr M obj hc hM harg stack env out polls depth fuel a ha]
+  exact hstep fuel
+
+/-- one more instruction after a run that stands at `ip` with `e1` more fuel than counted -/
+theorem stepE {M : Machine} {obj : HostVal} {code : Bytes} {n1 e1 ip0 ip : Nat} {stack0 stack : List Value}
+    {st0 : RunSt} {env : Env} {out : Str} {polls depth : Nat} {i : Instr} {rest : List Instr}
+    (h1 : ∀ fuel, loop M obj code (fuel + n1) ip0 stack0 st0 = loop M obj code (fuel + e1) ip stack ⟨env, out, polls, depth⟩)
+    (hc : CodeAt code ip (i :: rest)) (hM : NeverDone M) (harg : storedArg i = i.arg ∨ i.op.length = 1)
+    (a : Nat) (ha : a = storedArg i) (fuel : Nat) :
+    loop M obj code (fuel + (1 + n1)) ip0 stack0 st0 =
+      (match step M obj code.length (fun c s => loop M obj c (fuel + e1) 0 [] s) i.op.toNat a (ip + i.size) stack
+              ⟨env, out, polls + 1, depth⟩ with
+       | .cont ip' stack' st' => loop M obj code (fuel + e1) ip' stack' st'
+       | .halt r st' => (r, st')) := by
+  rw [← Nat.add_assoc, h1 (fuel + 1), show fuel + 1 + e1 = (fuel + e1) + 1 by omega,
+    run_instr M obj hc hM harg stack env out polls depth (fuel + e1) a ha]
+  rfl
+
 theorem step_case_ok (M : Machine) (obj : HostVal) (len : Nat) (rb : Bytes → RunSt → Res × RunSt) (arg next : Nat)
     (caseVal val t : Value) (o : Str) (stack : List Value) (st : RunSt) (h : caseOp M val caseVal = .ok (t, o)) :
     step M obj len rb Op.case.toNat arg next (caseVal :: val :: stack) st =
@@ -354,26 +391,26 @@ structure SIH (f : Nat) : Prop where
   E : ∀ (e : Expr) (base : Nat) (cst : CState) (r : List Instr × CState), stmtE e = true →
       compileExpr e base cst = .ok r → CodeAt code base r.1 → (∃ ex, M.consts = r.2.consts ++ ex) →
       ∀ (stack : List Value) (env : Env) (out : Str) (polls depth : Nat), execE M obj f e env out ≠ .diverged →
-      ∃ n k, ∀ fuel, loop M obj code (fuel + n) base stack ⟨env, out, polls, depth⟩ =
-        afterS M obj code fuel (base + e.size) stack (polls + k) depth (execE M obj f e env out)
+      ∃ n k q, ∀ fuel, loop M obj code (fuel + n) base stack ⟨env, out, polls, depth⟩ =
+        afterS M obj code (fuel + q) (base + e.size) stack (polls + k) depth (execE M obj f e env out)
   S : ∀ (s : Stmt) (base : Nat) (cst : CState) (r : List Instr × CState), pureS s = true →
       compileStmt s base cst = .ok r → CodeAt code base r.1 → (∃ ex, M.consts = r.2.consts ++ ex) →
       ∀ (stack : List Value) (env : Env) (out : Str) (polls depth : Nat), execS M obj f s env out ≠ .diverged →
-      ∃ n k, ∀ fuel, loop M obj code (fuel + n) base stack ⟨env, out, polls, depth⟩ =
-        afterS M obj code fuel (base + s.size) stack (polls + k) depth (execS M obj f s env out)
+      ∃ n k q, ∀ fuel, loop M obj code (fuel + n) base stack ⟨env, out, polls, depth⟩ =
+        afterS M obj code (fuel + q) (base + s.size) stack (polls + k) depth (execS M obj f s env out)
   Ss : ∀ (ss : List Stmt) (base : Nat) (cst : CState) (r : List Instr × CState), pureSs ss = true →
       compileStmts ss base cst = .ok r → CodeAt code base r.1 → (∃ ex, M.consts = r.2.consts ++ ex) →
       ∀ (stack : List Value) (env : Env) (out : Str) (polls depth : Nat), execSs M obj f ss env out ≠ .diverged →
-      ∃ n k, ∀ fuel, loop M obj code (fuel + n) base stack ⟨env, out, polls, depth⟩ =
-        afterS M obj code fuel (base + Stmt.sizes ss) stack (polls + k) depth (execSs M obj f ss env out)
+      ∃ n k q, ∀ fuel, loop M obj code (fuel + n) base stack ⟨env, out, polls, depth⟩ =
+        afterS M obj code (fuel + q) (base + Stmt.sizes ss) stack (polls + k) depth (execSs M obj f ss env out)
   /-- a foreach loop from its head (the two name constants before OpIterationNext), the iterator on the stack -/
   I : ∀ (idx x : Str) (v : Expr) (body : List Stmt) (base : Nat) (cst : CState) (r : List Instr × CState),
       pureE v = true → pureSs body = true →
       compileExpr (.foreachE idx x v body) base cst = .ok r → CodeAt code base r.1 → (∃ ex, M.consts = r.2.consts ++ ex) →
       ∀ (it : Value) (k : Nat) (stack : List Value) (env : Env) (out : Str) (polls depth : Nat),
         execIter M obj f idx x body it k env out ≠ .diverged →
-      ∃ n k', ∀ fuel, loop M obj code (fuel + n) (base + v.size + 1) (.iterating it k :: stack) ⟨env, out, polls, depth⟩ =
-        afterS M obj code fuel (base + (Expr.foreachE idx x v body).size) stack (polls + k') depth
+      ∃ n k' q, ∀ fuel, loop M obj code (fuel + n) (base + v.size + 1) (.iterating it k :: stack) ⟨env, out, polls, depth⟩ =
+        afterS M obj code (fuel + q) (base + (Expr.foreachE idx x v body).size) stack (polls + k') depth
           (execIter M obj f idx x body it k env out)
 
   /-- the tests of one `case a, b, c { … }` -/
@@ -383,8 +420,8 @@ structure SIH (f : Nat) : Prop where
       CodeAt code base r.1 → (∃ ex, M.consts = r.2.consts ++ ex) → endPos < code.length →
       base + Case.armSize v.size (Stmt.sizes b) es ≤ endPos →
       ∀ (stack : List Value) (env : Env) (out : Str) (polls depth : Nat), execArm M obj f v es b env out ≠ .done .diverged →
-      ∃ n k, ∀ fuel, loop M obj code (fuel + n) base stack ⟨env, out, polls, depth⟩ =
-        afterA M obj code fuel endPos (base + Case.armSize v.size (Stmt.sizes b) es) stack (polls + k) depth
+      ∃ n k q, ∀ fuel, loop M obj code (fuel + n) base stack ⟨env, out, polls, depth⟩ =
+        afterA M obj code (fuel + q) endPos (base + Case.armSize v.size (Stmt.sizes b) es) stack (polls + k) depth
           (execArm M obj f v es b env out)
   /-- the non-default cases of a switch -/
   Am : ∀ (v : Expr) (cs : List Case) (base endPos : Nat) (cst : CState) (r : List Instr × CState),
@@ -393,15 +430,15 @@ structure SIH (f : Nat) : Prop where
       CodeAt code base r.1 → (∃ ex, M.consts = r.2.consts ++ ex) → endPos < code.length →
       base + Case.armsSize v.size cs ≤ endPos →
       ∀ (stack : List Value) (env : Env) (out : Str) (polls depth : Nat), execArms M obj f v cs env out ≠ .done .diverged →
-      ∃ n k, ∀ fuel, loop M obj code (fuel + n) base stack ⟨env, out, polls, depth⟩ =
-        afterA M obj code fuel endPos (base + Case.armsSize v.size cs) stack (polls + k) depth
+      ∃ n k q, ∀ fuel, loop M obj code (fuel + n) base stack ⟨env, out, polls, depth⟩ =
+        afterA M obj code (fuel + q) endPos (base + Case.armsSize v.size cs) stack (polls + k) depth
           (execArms M obj f v cs env out)
   /-- the default blocks -/
   Dm : ∀ (cs : List Case) (base : Nat) (cst : CState) (r : List Instr × CState), pureCases cs = true →
       compileDefaults cs base cst = .ok r → CodeAt code base r.1 → (∃ ex, M.consts = r.2.consts ++ ex) →
       ∀ (stack : List Value) (env : Env) (out : Str) (polls depth : Nat), execDefaults M obj f cs env out ≠ .diverged →
-      ∃ n k, ∀ fuel, loop M obj code (fuel + n) base stack ⟨env, out, polls, depth⟩ =
-        afterS M obj code fuel (base + Case.defaultsSize cs) stack (polls + k) depth (execDefaults M obj f cs env out)
+      ∃ n k q, ∀ fuel, loop M obj code (fuel + n) base stack ⟨env, out, polls, depth⟩ =
+        afterS M obj code (fuel + q) (base + Case.defaultsSize cs) stack (polls + k) depth (execDefaults M obj f cs env out)
 
 theorem SIH_zero : SIH M obj code 0 := by
   constructor <;> intros <;> simp_all [execE, execS, execSs, execIter, execArms, execArm, execDefaults]
@@ -413,13 +450,13 @@ theorem step_Ss (ctx : Ctx M code) (f : Nat) (ih : SIH M obj code f) :
     ∀ (ss : List Stmt) (base : Nat) (cst : CState) (r : List Instr × CState), pureSs ss = true →
       compileStmts ss base cst = .ok r → CodeAt code base r.1 → (∃ ex, M.consts = r.2.consts ++ ex) →
       ∀ (stack : List Value) (env : Env) (out : Str) (polls depth : Nat), execSs M obj (f + 1) ss env out ≠ .diverged →
-      ∃ n k, ∀ fuel, loop M obj code (fuel + n) base stack ⟨env, out, polls, depth⟩ =
-        afterS M obj code fuel (base + Stmt.sizes ss) stack (polls + k) depth (execSs M obj (f + 1) ss env out) := by
+      ∃ n k q, ∀ fuel, loop M obj code (fuel + n) base stack ⟨env, out, polls, depth⟩ =
+        afterS M obj code (fuel + q) (base + Stmt.sizes ss) stack (polls + k) depth (execSs M obj (f + 1) ss env out) := by
   intro ss base cst r hpure h hc hp stack env out polls depth hnd
   cases ss with
   | nil =>
     simp only [compileStmts, pure, Except.pure] at h; cases h
-    exact ⟨0, 0, fun fuel => by simp [afterS, execSs, Stmt.sizes]⟩
+    exact ⟨0, 0, 0, fun fuel => by simp [afterS, execSs, Stmt.sizes]⟩
   | cons s rest =>
     simp only [compileStmts, bind_ok_eq, pure, Except.pure] at h
     obtain ⟨⟨c, st1⟩, h1, ⟨cs, st2⟩, h2, h3⟩ := h
@@ -434,30 +471,29 @@ theorem step_Ss (ctx : Ctx M code) (f : Nat) (ih : SIH M obj code f) :
     cases hs : execS M obj f s env out with
     | diverged => simp [hs] at hnd
     | returned v env' o' =>
-      obtain ⟨n1, k1, ih1⟩ := ih.S s base cst _ hpure.1 h1 hcs (pool_trans hp r2.ext) stack env out polls depth (by simp [hs])
-      exact ⟨n1, k1, fun fuel => by rw [ih1 fuel, hs]; simp [afterS]⟩
+      obtain ⟨n1, k1, e1, ih1⟩ := ih.S s base cst _ hpure.1 h1 hcs (pool_trans hp r2.ext) stack env out polls depth (by simp [hs])
+      exact ⟨n1, k1, e1, fun fuel => by rw [ih1 fuel, hs]; simp [afterS]⟩
     | failed e env' o' =>
-      obtain ⟨n1, k1, ih1⟩ := ih.S s base cst _ hpure.1 h1 hcs (pool_trans hp r2.ext) stack env out polls depth (by simp [hs])
-      exact ⟨n1, k1, fun fuel => by rw [ih1 fuel, hs]; simp [afterS]⟩
+      obtain ⟨n1, k1, e1, ih1⟩ := ih.S s base cst _ hpure.1 h1 hcs (pool_trans hp r2.ext) stack env out polls depth (by simp [hs])
+      exact ⟨n1, k1, e1, fun fuel => by rw [ih1 fuel, hs]; simp [afterS]⟩
     | normal env' o' =>
-      obtain ⟨n1, k1, ih1⟩ := ih.S s base cst _ hpure.1 h1 hcs (pool_trans hp r2.ext) stack env out polls depth (by simp [hs])
+      obtain ⟨n1, k1, e1, ih1⟩ := ih.S s base cst _ hpure.1 h1 hcs (pool_trans hp r2.ext) stack env out polls depth (by simp [hs])
       have hrun1 : ∀ fuel, loop M obj code (fuel + n1) base stack ⟨env, out, polls, depth⟩ =
-          loop M obj code fuel (base + s.size) stack ⟨env', o', polls + k1, depth⟩ := by
+          loop M obj code (fuel + e1) (base + s.size) stack ⟨env', o', polls + k1, depth⟩ := by
         intro fuel; rw [ih1 fuel, hs]; rfl
       simp only [hs] at hnd
-      obtain ⟨n2, k2, ih2⟩ := ih.Ss rest _ _ _ hpure.2 h2 hcr hp stack env' o' (polls + k1) depth hnd
-      refine ⟨n2 + n1, k1 + k2, ?_⟩
-      apply chain hrun1 n2
-      intro fuel
-      rw [ih2 fuel]
+      obtain ⟨n2, k2, e2, ih2⟩ := ih.Ss rest _ _ _ hpure.2 h2 hcr hp stack env' o' (polls + k1) depth hnd
+      have h3 := chainE (f := fun x => loop M obj code x (base + s.size) stack ⟨env', o', polls + k1, depth⟩) hrun1 n2 ih2
+      refine ⟨n2 + n1, k1 + k2, e1 + e2, fun fuel => ?_⟩
+      rw [h3 fuel]
       simp [Stmt.sizes, Nat.add_assoc]
 
 theorem step_S (ctx : Ctx M code) (f : Nat) (ih : SIH M obj code f) :
     ∀ (s : Stmt) (base : Nat) (cst : CState) (r : List Instr × CState), pureS s = true →
       compileStmt s base cst = .ok r → CodeAt code base r.1 → (∃ ex, M.consts = r.2.consts ++ ex) →
       ∀ (stack : List Value) (env : Env) (out : Str) (polls depth : Nat), execS M obj (f + 1) s env out ≠ .diverged →
-      ∃ n k, ∀ fuel, loop M obj code (fuel + n) base stack ⟨env, out, polls, depth⟩ =
-        afterS M obj code fuel (base + s.size) stack (polls + k) depth (execS M obj (f + 1) s env out) := by
+      ∃ n k q, ∀ fuel, loop M obj code (fuel + n) base stack ⟨env, out, polls, depth⟩ =
+        afterS M obj code (fuel + q) (base + s.size) stack (polls + k) depth (execS M obj (f + 1) s env out) := by
   intro s base cst r hpure h hc hp stack env out polls depth hnd
   cases s with
   | expr e =>
@@ -479,12 +515,12 @@ theorem step_S (ctx : Ctx M code) (f : Nat) (ih : SIH M obj code f) :
     | mk res o1 =>
       cases res with
       | error x =>
-        exact ⟨n1, k1, fun fuel => by rw [ih1 fuel, hev]; simp [after, afterS]⟩
+        exact ⟨n1, k1, 0, fun fuel => by rw [ih1 fuel, hev]; simp [after, afterS]⟩
       | ok v =>
         have hrun : ∀ fuel, loop M obj code (fuel + n1) base stack ⟨env, out, polls, depth⟩ =
             loop M obj code fuel (base + e.size) (v :: stack) ⟨env, o1, polls + k1, depth⟩ := by
           intro fuel; rw [ih1 fuel, hev]; rfl
-        refine ⟨1 + n1, k1 + 1, ?_⟩
+        refine ⟨1 + n1, k1 + 1, 0, ?_⟩
         apply finish_instr hrun hret ctx.nd (Or.inr rfl) 0 (by simp [storedArg, Op.length])
         intro fuel
         rw [step_return]
@@ -494,8 +530,8 @@ theorem step_E (ctx : Ctx M code) (f : Nat) (ih : SIH M obj code f) :
     ∀ (e : Expr) (base : Nat) (cst : CState) (r : List Instr × CState), stmtE e = true →
       compileExpr e base cst = .ok r → CodeAt code base r.1 → (∃ ex, M.consts = r.2.consts ++ ex) →
       ∀ (stack : List Value) (env : Env) (out : Str) (polls depth : Nat), execE M obj (f + 1) e env out ≠ .diverged →
-      ∃ n k, ∀ fuel, loop M obj code (fuel + n) base stack ⟨env, out, polls, depth⟩ =
-        afterS M obj code fuel (base + e.size) stack (polls + k) depth (execE M obj (f + 1) e env out) := by
+      ∃ n k q, ∀ fuel, loop M obj code (fuel + n) base stack ⟨env, out, polls, depth⟩ =
+        afterS M obj code (fuel + q) (base + e.size) stack (polls + k) depth (execE M obj (f + 1) e env out) := by
   intro e base cst r hpure h hc hp stack env out polls depth hnd
   have hlen := ctx.len
   cases e with
@@ -523,7 +559,7 @@ theorem step_E (ctx : Ctx M code) (f : Nat) (ih : SIH M obj code f) :
     cases hev : evalE M obj env v out with
     | mk res o1 =>
       cases res with
-      | error x => exact ⟨n1, k1, fun fuel => by rw [ih1 fuel, hev]; simp [after, afterS]⟩
+      | error x => exact ⟨n1, k1, 0, fun fuel => by rw [ih1 fuel, hev]; simp [after, afterS]⟩
       | ok x =>
         have hrun1 : ∀ fuel, loop M obj code (fuel + n1) base stack ⟨env, out, polls, depth⟩ =
             loop M obj code fuel (base + v.size) (x :: stack) ⟨env, o1, polls + k1, depth⟩ := by
@@ -534,7 +570,7 @@ theorem step_E (ctx : Ctx M code) (f : Nat) (ih : SIH M obj code f) :
           intro fuel
           rw [hop, step_constant M obj _ _ _ _ _ _ cn hget]
           simp [Instr.size, hop, Op.length]
-        refine ⟨1 + (1 + n1), k1 + 1 + 1, ?_⟩
+        refine ⟨1 + (1 + n1), k1 + 1 + 1, 0, ?_⟩
         apply finish_instr hrun2 hset ctx.nd (Or.inr rfl) 0 (by simp [storedArg, Op.length])
         intro fuel
         rw [step_set]
@@ -575,7 +611,7 @@ theorem step_E (ctx : Ctx M code) (f : Nat) (ih : SIH M obj code f) :
       cases hev : evalE M obj env c out with
       | mk res o1 =>
         cases res with
-        | error x => exact ⟨n1, k1, fun fuel => by rw [ih1 fuel, hev]; simp [after, afterS]⟩
+        | error x => exact ⟨n1, k1, 0, fun fuel => by rw [ih1 fuel, hev]; simp [after, afterS]⟩
         | ok cv =>
           simp only [hev] at hnd
           have hrun1 : ∀ fuel, loop M obj code (fuel + n1) base stack ⟨env, out, polls, depth⟩ =
@@ -589,26 +625,24 @@ theorem step_E (ctx : Ctx M code) (f : Nat) (ih : SIH M obj code f) :
               intro fuel
               rw [step_jif M obj _ _ _ _ _ _ cv (by omega)]
               simp [hcv, Instr.size, Op.length]
-            obtain ⟨n2, k2, ih2⟩ := ih.Ss cons _ _ _ hpure.2 h2 hca hp stack env o1 (polls + k1 + 1) depth hnd
+            obtain ⟨n2, k2, e2, ih2⟩ := ih.Ss cons _ _ _ hpure.2 h2 hca hp stack env o1 (polls + k1 + 1) depth hnd
             cases hb : execSs M obj f cons env o1 with
             | diverged => exact absurd hb hnd
             | returned v env' o' =>
-              refine ⟨n2 + (1 + n1), k1 + 1 + k2, ?_⟩
+              refine ⟨n2 + (1 + n1), k1 + 1 + k2, 0, ?_⟩
               apply chain hrun2 n2
               intro fuel; rw [ih2 fuel, hb]; simp [afterS, Nat.add_assoc]
             | failed x env' o' =>
-              refine ⟨n2 + (1 + n1), k1 + 1 + k2, ?_⟩
+              refine ⟨n2 + (1 + n1), k1 + 1 + k2, 0, ?_⟩
               apply chain hrun2 n2
               intro fuel; rw [ih2 fuel, hb]; simp [afterS, Nat.add_assoc]
             | normal env' o' =>
               have hrun3 : ∀ fuel, loop M obj code (fuel + (n2 + (1 + n1))) base stack ⟨env, out, polls, depth⟩ =
-                  loop M obj code fuel (base + c.size + 3 + Stmt.sizes cons) stack ⟨env', o', polls + k1 + 1 + k2, depth⟩ := by
+                  loop M obj code (fuel + e2) (base + c.size + 3 + Stmt.sizes cons) stack ⟨env', o', polls + k1 + 1 + k2, depth⟩ := by
                 apply chain hrun2 n2
                 intro fuel; rw [ih2 fuel, hb]; rfl
-              refine ⟨1 + (n2 + (1 + n1)), k1 + 1 + k2 + 1, ?_⟩
-              apply finish_instr hrun3 hph ctx.nd (Or.inr rfl) 0 (by simp [storedArg, Op.length])
-              intro fuel
-              rw [step_placeholder]
+              refine ⟨1 + (n2 + (1 + n1)), k1 + 1 + k2 + 1, e2, fun fuel => ?_⟩
+              rw [stepE hrun3 hph ctx.nd (Or.inr rfl) 0 (by simp [storedArg, Op.length]) fuel, step_placeholder]
               simp [afterS, hsz, Instr.size, Op.length, Nat.add_assoc]
           · simp only [hcv, Bool.false_eq_true, ↓reduceIte] at hnd ⊢
             have hrun2 : ∀ fuel, loop M obj code (fuel + (1 + n1)) base stack ⟨env, out, polls, depth⟩ =
@@ -617,7 +651,7 @@ theorem step_E (ctx : Ctx M code) (f : Nat) (ih : SIH M obj code f) :
               intro fuel
               rw [step_jif M obj _ _ _ _ _ _ cv (by omega)]
               simp [hcv]
-            refine ⟨1 + (1 + n1), k1 + 1 + 1, ?_⟩
+            refine ⟨1 + (1 + n1), k1 + 1 + 1, 0, ?_⟩
             apply finish_instr hrun2 hph ctx.nd (Or.inr rfl) 0 (by simp [storedArg, Op.length])
             intro fuel
             rw [step_placeholder]
@@ -671,7 +705,7 @@ theorem step_E (ctx : Ctx M code) (f : Nat) (ih : SIH M obj code f) :
       cases hev : evalE M obj env c out with
       | mk res o1 =>
         cases res with
-        | error x => exact ⟨n1, k1, fun fuel => by rw [ih1 fuel, hev]; simp [after, afterS]⟩
+        | error x => exact ⟨n1, k1, 0, fun fuel => by rw [ih1 fuel, hev]; simp [after, afterS]⟩
         | ok cv =>
           simp only [hev] at hnd
           have hrun1 : ∀ fuel, loop M obj code (fuel + n1) base stack ⟨env, out, polls, depth⟩ =
@@ -685,31 +719,28 @@ theorem step_E (ctx : Ctx M code) (f : Nat) (ih : SIH M obj code f) :
               intro fuel
               rw [step_jif M obj _ _ _ _ _ _ cv (by omega)]
               simp [hcv, Instr.size, Op.length]
-            obtain ⟨n2, k2, ih2⟩ := ih.Ss cons _ _ _ hpcons h2 hca (pool_trans hp r3.ext) stack env o1 (polls + k1 + 1) depth hnd
+            obtain ⟨n2, k2, e2, ih2⟩ := ih.Ss cons _ _ _ hpcons h2 hca (pool_trans hp r3.ext) stack env o1 (polls + k1 + 1) depth hnd
             cases hb : execSs M obj f cons env o1 with
             | diverged => exact absurd hb hnd
             | returned v env' o' =>
-              refine ⟨n2 + (1 + n1), k1 + 1 + k2, ?_⟩
+              refine ⟨n2 + (1 + n1), k1 + 1 + k2, 0, ?_⟩
               apply chain hrun2 n2
               intro fuel; rw [ih2 fuel, hb]; simp [afterS, Nat.add_assoc]
             | failed x env' o' =>
-              refine ⟨n2 + (1 + n1), k1 + 1 + k2, ?_⟩
+              refine ⟨n2 + (1 + n1), k1 + 1 + k2, 0, ?_⟩
               apply chain hrun2 n2
               intro fuel; rw [ih2 fuel, hb]; simp [afterS, Nat.add_assoc]
             | normal env' o' =>
               have hrun3 : ∀ fuel, loop M obj code (fuel + (n2 + (1 + n1))) base stack ⟨env, out, polls, depth⟩ =
-                  loop M obj code fuel (base + c.size + 3 + Stmt.sizes cons) stack ⟨env', o', polls + k1 + 1 + k2, depth⟩ := by
+                  loop M obj code (fuel + e2) (base + c.size + 3 + Stmt.sizes cons) stack ⟨env', o', polls + k1 + 1 + k2, depth⟩ := by
                 apply chain hrun2 n2
                 intro fuel; rw [ih2 fuel, hb]; rfl
               have hrun4 : ∀ fuel, loop M obj code (fuel + (1 + (n2 + (1 + n1)))) base stack ⟨env, out, polls, depth⟩ =
-                  loop M obj code fuel (base + c.size + 3 + Stmt.sizes cons + 3 + Stmt.sizes a) stack ⟨env', o', polls + k1 + 1 + k2 + 1, depth⟩ := by
-                apply finish_instr hrun3 hjmp ctx.nd (Or.inl ha2) _ ha2.symm
+                  loop M obj code (fuel + e2) (base + c.size + 3 + Stmt.sizes cons + 3 + Stmt.sizes a) stack ⟨env', o', polls + k1 + 1 + k2 + 1, depth⟩ := by
                 intro fuel
-                rw [step_jump M obj _ _ _ _ _ _ (by omega)]
-              refine ⟨1 + (1 + (n2 + (1 + n1))), k1 + 1 + k2 + 1 + 1, ?_⟩
-              apply finish_instr hrun4 hph ctx.nd (Or.inr rfl) 0 (by simp [storedArg, Op.length])
-              intro fuel
-              rw [step_placeholder]
+                rw [stepE hrun3 hjmp ctx.nd (Or.inl ha2) _ ha2.symm fuel, step_jump M obj _ _ _ _ _ _ (by omega)]
+              refine ⟨1 + (1 + (n2 + (1 + n1))), k1 + 1 + k2 + 1 + 1, e2, fun fuel => ?_⟩
+              rw [stepE hrun4 hph ctx.nd (Or.inr rfl) 0 (by simp [storedArg, Op.length]) fuel, step_placeholder]
               simp [afterS, hsz, Instr.size, Op.length, Nat.add_assoc]
           · simp only [hcv, Bool.false_eq_true, ↓reduceIte] at hnd ⊢
             have hrun2 : ∀ fuel, loop M obj code (fuel + (1 + n1)) base stack ⟨env, out, polls, depth⟩ =
@@ -718,26 +749,24 @@ theorem step_E (ctx : Ctx M code) (f : Nat) (ih : SIH M obj code f) :
               intro fuel
               rw [step_jif M obj _ _ _ _ _ _ cv (by omega)]
               simp [hcv]
-            obtain ⟨n2, k2, ih2⟩ := ih.Ss a _ _ _ hpa h4 hcb hp stack env o1 (polls + k1 + 1) depth hnd
+            obtain ⟨n2, k2, e2, ih2⟩ := ih.Ss a _ _ _ hpa h4 hcb hp stack env o1 (polls + k1 + 1) depth hnd
             cases hb : execSs M obj f a env o1 with
             | diverged => exact absurd hb hnd
             | returned v env' o' =>
-              refine ⟨n2 + (1 + n1), k1 + 1 + k2, ?_⟩
+              refine ⟨n2 + (1 + n1), k1 + 1 + k2, 0, ?_⟩
               apply chain hrun2 n2
               intro fuel; rw [ih2 fuel, hb]; simp [afterS, Nat.add_assoc]
             | failed x env' o' =>
-              refine ⟨n2 + (1 + n1), k1 + 1 + k2, ?_⟩
+              refine ⟨n2 + (1 + n1), k1 + 1 + k2, 0, ?_⟩
               apply chain hrun2 n2
               intro fuel; rw [ih2 fuel, hb]; simp [afterS, Nat.add_assoc]
             | normal env' o' =>
               have hrun3 : ∀ fuel, loop M obj code (fuel + (n2 + (1 + n1))) base stack ⟨env, out, polls, depth⟩ =
-                  loop M obj code fuel (base + c.size + 3 + Stmt.sizes cons + 3 + Stmt.sizes a) stack ⟨env', o', polls + k1 + 1 + k2, depth⟩ := by
+                  loop M obj code (fuel + e2) (base + c.size + 3 + Stmt.sizes cons + 3 + Stmt.sizes a) stack ⟨env', o', polls + k1 + 1 + k2, depth⟩ := by
                 apply chain hrun2 n2
                 intro fuel; rw [ih2 fuel, hb]; rfl
-              refine ⟨1 + (n2 + (1 + n1)), k1 + 1 + k2 + 1, ?_⟩
-              apply finish_instr hrun3 hph ctx.nd (Or.inr rfl) 0 (by simp [storedArg, Op.length])
-              intro fuel
-              rw [step_placeholder]
+              refine ⟨1 + (n2 + (1 + n1)), k1 + 1 + k2 + 1, e2, fun fuel => ?_⟩
+              rw [stepE hrun3 hph ctx.nd (Or.inr rfl) 0 (by simp [storedArg, Op.length]) fuel, step_placeholder]
               simp [afterS, hsz, Instr.size, Op.length, Nat.add_assoc]
   | whileE c body =>
     have hcomp := h
@@ -779,7 +808,7 @@ theorem step_E (ctx : Ctx M code) (f : Nat) (ih : SIH M obj code f) :
     cases hev : evalE M obj env c out with
     | mk res o1 =>
       cases res with
-      | error x => exact ⟨n1, k1, fun fuel => by rw [ih1 fuel, hev]; simp [after, afterS]⟩
+      | error x => exact ⟨n1, k1, 0, fun fuel => by rw [ih1 fuel, hev]; simp [after, afterS]⟩
       | ok cv =>
         simp only [hev] at hnd
         have hrun1 : ∀ fuel, loop M obj code (fuel + n1) base stack ⟨env, out, polls, depth⟩ =
@@ -796,32 +825,31 @@ theorem step_E (ctx : Ctx M code) (f : Nat) (ih : SIH M obj code f) :
           cases hb : execSs M obj f body env o1 with
           | diverged => simp [hb] at hnd
           | returned v env' o' =>
-            obtain ⟨n2, k2, ih2⟩ := ih.Ss body _ _ _ hpure.2 h2 hcb hp stack env o1 (polls + k1 + 1) depth (by simp [hb])
-            refine ⟨n2 + (1 + n1), k1 + 1 + k2, ?_⟩
+            obtain ⟨n2, k2, e2, ih2⟩ := ih.Ss body _ _ _ hpure.2 h2 hcb hp stack env o1 (polls + k1 + 1) depth (by simp [hb])
+            refine ⟨n2 + (1 + n1), k1 + 1 + k2, 0, ?_⟩
             apply chain hrun2 n2
             intro fuel; rw [ih2 fuel, hb]; simp [afterS, Nat.add_assoc]
           | failed x env' o' =>
-            obtain ⟨n2, k2, ih2⟩ := ih.Ss body _ _ _ hpure.2 h2 hcb hp stack env o1 (polls + k1 + 1) depth (by simp [hb])
-            refine ⟨n2 + (1 + n1), k1 + 1 + k2, ?_⟩
+            obtain ⟨n2, k2, e2, ih2⟩ := ih.Ss body _ _ _ hpure.2 h2 hcb hp stack env o1 (polls + k1 + 1) depth (by simp [hb])
+            refine ⟨n2 + (1 + n1), k1 + 1 + k2, 0, ?_⟩
             apply chain hrun2 n2
             intro fuel; rw [ih2 fuel, hb]; simp [afterS, Nat.add_assoc]
           | normal env' o' =>
-            obtain ⟨n2, k2, ih2⟩ := ih.Ss body _ _ _ hpure.2 h2 hcb hp stack env o1 (polls + k1 + 1) depth (by simp [hb])
+            obtain ⟨n2, k2, e2, ih2⟩ := ih.Ss body _ _ _ hpure.2 h2 hcb hp stack env o1 (polls + k1 + 1) depth (by simp [hb])
             simp only [hb] at hnd
             have hrun3 : ∀ fuel, loop M obj code (fuel + (n2 + (1 + n1))) base stack ⟨env, out, polls, depth⟩ =
-                loop M obj code fuel (base + c.size + 3 + Stmt.sizes body) stack ⟨env', o', polls + k1 + 1 + k2, depth⟩ := by
+                loop M obj code (fuel + e2) (base + c.size + 3 + Stmt.sizes body) stack ⟨env', o', polls + k1 + 1 + k2, depth⟩ := by
               apply chain hrun2 n2
               intro fuel; rw [ih2 fuel, hb]; rfl
             -- the back jump, then the loop again (induction hypothesis for the same loop, smaller budget)
             have hrun4 : ∀ fuel, loop M obj code (fuel + (1 + (n2 + (1 + n1)))) base stack ⟨env, out, polls, depth⟩ =
-                loop M obj code fuel base stack ⟨env', o', polls + k1 + 1 + k2 + 1, depth⟩ := by
-              apply finish_instr hrun3 hjmp ctx.nd (Or.inl ha2) _ ha2.symm
+                loop M obj code (fuel + e2) base stack ⟨env', o', polls + k1 + 1 + k2 + 1, depth⟩ := by
               intro fuel
-              rw [step_jump M obj _ _ _ _ _ _ (by omega)]
-            obtain ⟨n3, k3, ih3⟩ := ih.E (.whileE c body) base cst _ hpure' hcomp hc hp stack env' o' (polls + k1 + 1 + k2 + 1) depth hnd
-            refine ⟨n3 + (1 + (n2 + (1 + n1))), k1 + 1 + k2 + 1 + k3, ?_⟩
-            apply chain hrun4 n3
-            intro fuel; rw [ih3 fuel]; simp [Nat.add_assoc]
+              rw [stepE hrun3 hjmp ctx.nd (Or.inl ha2) _ ha2.symm fuel, step_jump M obj _ _ _ _ _ _ (by omega)]
+            obtain ⟨n3, k3, e3, ih3⟩ := ih.E (.whileE c body) base cst _ hpure' hcomp hc hp stack env' o' (polls + k1 + 1 + k2 + 1) depth hnd
+            have h5 := chainE (f := fun y => loop M obj code y base stack ⟨env', o', polls + k1 + 1 + k2 + 1, depth⟩) hrun4 n3 ih3
+            refine ⟨n3 + (1 + (n2 + (1 + n1))), k1 + 1 + k2 + 1 + k3, e2 + e3, fun fuel => ?_⟩
+            rw [h5 fuel]; simp [Nat.add_assoc]
         · simp only [hcv, Bool.false_eq_true, ↓reduceIte] at hnd ⊢
           have hrun2 : ∀ fuel, loop M obj code (fuel + (1 + n1)) base stack ⟨env, out, polls, depth⟩ =
               loop M obj code fuel (base + c.size + 3 + Stmt.sizes body + 3) stack ⟨env, o1, polls + k1 + 1, depth⟩ := by
@@ -829,7 +857,7 @@ theorem step_E (ctx : Ctx M code) (f : Nat) (ih : SIH M obj code f) :
             intro fuel
             rw [step_jif M obj _ _ _ _ _ _ cv (by omega)]
             simp [hcv]
-          refine ⟨1 + (1 + n1), k1 + 1 + 1, ?_⟩
+          refine ⟨1 + (1 + n1), k1 + 1 + 1, 0, ?_⟩
           apply finish_instr hrun2 hph ctx.nd (Or.inr rfl) 0 (by simp [storedArg, Op.length])
           intro fuel
           rw [step_placeholder]
@@ -843,7 +871,7 @@ theorem step_E (ctx : Ctx M code) (f : Nat) (ih : SIH M obj code f) :
     cases hev : evalE M obj env v out with
     | mk res o1 =>
       cases res with
-      | error e => exact ⟨n1, k1, fun fuel => by rw [ih1 fuel, hev]; simp [after, afterS]⟩
+      | error e => exact ⟨n1, k1, 0, fun fuel => by rw [ih1 fuel, hev]; simp [after, afterS]⟩
       | ok iv =>
         simp only [hev] at hnd
         have hrun1 : ∀ fuel, loop M obj code (fuel + n1) base stack ⟨env, out, polls, depth⟩ =
@@ -851,7 +879,7 @@ theorem step_E (ctx : Ctx M code) (f : Nat) (ih : SIH M obj code f) :
           intro fuel; rw [ih1 fuel, hev]; rfl
         cases hrv : resetVal iv with
         | error e =>
-          refine ⟨1 + n1, k1 + 1, ?_⟩
+          refine ⟨1 + n1, k1 + 1, 0, ?_⟩
           apply finish_instr hrun1 hres ctx.nd (Or.inr rfl) 0 (by simp [storedArg, Op.length])
           intro fuel
           rw [step_iterReset_err M obj _ _ _ _ _ e _ _ hrv]
@@ -864,8 +892,8 @@ theorem step_E (ctx : Ctx M code) (f : Nat) (ih : SIH M obj code f) :
             intro fuel
             rw [step_iterReset_ok M obj _ _ _ _ _ it _ _ hrv]
             simp [Instr.size, Op.length]
-          obtain ⟨n2, k2, ih2⟩ := ih.I idx x v body base cst r hpure.1 hpure.2 h hc hp it 0 stack env.addScope o1 (polls + k1 + 1) depth hnd
-          refine ⟨n2 + (1 + n1), k1 + 1 + k2, ?_⟩
+          obtain ⟨n2, k2, e2, ih2⟩ := ih.I idx x v body base cst r hpure.1 hpure.2 h hc hp it 0 stack env.addScope o1 (polls + k1 + 1) depth hnd
+          refine ⟨n2 + (1 + n1), k1 + 1 + k2, e2, ?_⟩
           apply chain hrun2 n2
           intro fuel
           rw [ih2 fuel]
@@ -891,52 +919,46 @@ theorem step_E (ctx : Ctx M code) (f : Nat) (ih : SIH M obj code f) :
     have hsz : (Expr.switchE v cs).size = Case.armsSize v.size cs + Case.defaultsSize cs + 1 := by simp [Expr.size]
     have hend : base + Case.armsSize v.size cs + Case.defaultsSize cs < code.length := by omega
     -- one placeholder turn at the end of the switch
-    have hfin : ∀ (n k : Nat) (env' : Env) (o' : Str),
+    have hfin : ∀ (n k q : Nat) (env' : Env) (o' : Str),
         (∀ fuel, loop M obj code (fuel + n) base stack ⟨env, out, polls, depth⟩ =
-          loop M obj code fuel (base + Case.armsSize v.size cs + Case.defaultsSize cs) stack ⟨env', o', polls + k, depth⟩) →
+          loop M obj code (fuel + q) (base + Case.armsSize v.size cs + Case.defaultsSize cs) stack ⟨env', o', polls + k, depth⟩) →
         ∀ fuel, loop M obj code (fuel + (1 + n)) base stack ⟨env, out, polls, depth⟩ =
-          afterS M obj code fuel (base + (Expr.switchE v cs).size) stack (polls + (k + 1)) depth (.normal env' o') := by
-      intro n k env' o' hrun
-      apply finish_instr hrun hph ctx.nd (Or.inr rfl) 0 (by simp [storedArg, Op.length])
-      intro fuel
-      rw [step_placeholder]
+          afterS M obj code (fuel + q) (base + (Expr.switchE v cs).size) stack (polls + (k + 1)) depth (.normal env' o') := by
+      intro n k q env' o' hrun fuel
+      rw [stepE hrun hph ctx.nd (Or.inr rfl) 0 (by simp [storedArg, Op.length]) fuel, step_placeholder]
       simp [afterS, hsz, Instr.size, Op.length, Nat.add_assoc]
     simp only [execE] at hnd ⊢
     have hnd1 : execArms M obj f v cs env out ≠ .done .diverged := by
       intro hx; rw [hx] at hnd; exact hnd rfl
-    obtain ⟨n1, k1, ih1⟩ := ih.Am v cs base _ _ _ hpure.1 hpure.2 h1 hca (pool_trans hp r2.ext) hend (by omega)
+    obtain ⟨n1, k1, e1, ih1⟩ := ih.Am v cs base _ _ _ hpure.1 hpure.2 h1 hca (pool_trans hp r2.ext) hend (by omega)
       stack env out polls depth hnd1
     cases ha : execArms M obj f v cs env out with
     | done o =>
       simp only [ha] at hnd ⊢
       cases o with
       | diverged => exact absurd rfl hnd
-      | returned rv env' o' => exact ⟨n1, k1, fun fuel => by rw [ih1 fuel, ha]; simp [afterA, afterS]⟩
-      | failed x env' o' => exact ⟨n1, k1, fun fuel => by rw [ih1 fuel, ha]; simp [afterA, afterS]⟩
+      | returned rv env' o' => exact ⟨n1, k1, 0, fun fuel => by rw [ih1 fuel, ha]; simp [afterA, afterS]⟩
+      | failed x env' o' => exact ⟨n1, k1, 0, fun fuel => by rw [ih1 fuel, ha]; simp [afterA, afterS]⟩
       | normal env' o' =>
-        exact ⟨1 + n1, k1 + 1, hfin n1 k1 env' o' (fun fuel => by rw [ih1 fuel, ha]; rfl)⟩
+        exact ⟨1 + n1, k1 + 1, e1, hfin n1 k1 e1 env' o' (fun fuel => by rw [ih1 fuel, ha]; rfl)⟩
     | next env' out' =>
       simp only [ha] at hnd ⊢
       have hrun1 : ∀ fuel, loop M obj code (fuel + n1) base stack ⟨env, out, polls, depth⟩ =
-          loop M obj code fuel (base + Case.armsSize v.size cs) stack ⟨env', out', polls + k1, depth⟩ := by
+          loop M obj code (fuel + e1) (base + Case.armsSize v.size cs) stack ⟨env', out', polls + k1, depth⟩ := by
         intro fuel; rw [ih1 fuel, ha]; rfl
-      obtain ⟨n2, k2, ih2⟩ := ih.Dm cs _ _ _ hpure.2 h2 hcd hp stack env' out' (polls + k1) depth hnd
+      obtain ⟨n2, k2, e2, ih2⟩ := ih.Dm cs _ _ _ hpure.2 h2 hcd hp stack env' out' (polls + k1) depth hnd
+      have h3 := chainE (f := fun y => loop M obj code y (base + Case.armsSize v.size cs) stack ⟨env', out', polls + k1, depth⟩) hrun1 n2 ih2
       cases hb : execDefaults M obj f cs env' out' with
       | diverged => exact absurd hb hnd
       | returned rv env2 o2 =>
-        refine ⟨n2 + n1, k1 + k2, ?_⟩
-        apply chain hrun1 n2
-        intro fuel; rw [ih2 fuel, hb]; simp [afterS, Nat.add_assoc]
+        exact ⟨n2 + n1, k1 + k2, 0, fun fuel => by rw [h3 fuel, hb]; simp [afterS, Nat.add_assoc]⟩
       | failed x env2 o2 =>
-        refine ⟨n2 + n1, k1 + k2, ?_⟩
-        apply chain hrun1 n2
-        intro fuel; rw [ih2 fuel, hb]; simp [afterS, Nat.add_assoc]
+        exact ⟨n2 + n1, k1 + k2, 0, fun fuel => by rw [h3 fuel, hb]; simp [afterS, Nat.add_assoc]⟩
       | normal env2 o2 =>
         have hrun2 : ∀ fuel, loop M obj code (fuel + (n2 + n1)) base stack ⟨env, out, polls, depth⟩ =
-            loop M obj code fuel (base + Case.armsSize v.size cs + Case.defaultsSize cs) stack ⟨env2, o2, polls + (k1 + k2), depth⟩ := by
-          apply chain hrun1 n2
-          intro fuel; rw [ih2 fuel, hb]; simp [afterS, Nat.add_assoc]
-        exact ⟨1 + (n2 + n1), k1 + k2 + 1, hfin _ _ env2 o2 hrun2⟩
+            loop M obj code (fuel + (e1 + e2)) (base + Case.armsSize v.size cs + Case.defaultsSize cs) stack ⟨env2, o2, polls + (k1 + k2), depth⟩ := by
+          intro fuel; rw [h3 fuel, hb]; simp [afterS, Nat.add_assoc]
+        exact ⟨1 + (n2 + n1), k1 + k2 + 1, e1 + e2, hfin _ _ _ env2 o2 hrun2⟩
   | «infix» op l r =>
     cases l with
     | ident name =>
@@ -983,7 +1005,7 @@ theorem step_E (ctx : Ctx M code) (f : Nat) (ih : SIH M obj code f) :
         cases hev : evalE M obj env (.ident name) out with
         | mk res o1 =>
           cases res with
-          | error x => exact ⟨n1, k1, fun fuel => by rw [ih1 fuel, hev]; simp [after, afterS]⟩
+          | error x => exact ⟨n1, k1, 0, fun fuel => by rw [ih1 fuel, hev]; simp [after, afterS]⟩
           | ok lv =>
             have hrun1 : ∀ fuel, loop M obj code (fuel + n1) base stack ⟨env, out, polls, depth⟩ =
                 loop M obj code fuel (base + (Expr.ident name).size) (lv :: stack) ⟨env, o1, polls + k1, depth⟩ := by
@@ -994,7 +1016,7 @@ theorem step_E (ctx : Ctx M code) (f : Nat) (ih : SIH M obj code f) :
             | mk res2 o2 =>
               cases res2 with
               | error x =>
-                refine ⟨n2 + n1, k1 + k2, ?_⟩
+                refine ⟨n2 + n1, k1 + k2, 0, ?_⟩
                 apply chain hrun1 n2
                 intro fuel; rw [ih2 fuel]; simp [hev2, after, afterS, Nat.add_assoc]
               | ok rv =>
@@ -1005,7 +1027,7 @@ theorem step_E (ctx : Ctx M code) (f : Nat) (ih : SIH M obj code f) :
                   intro fuel; rw [ih2 fuel, hev2]; rfl
                 cases hb : binop M o lv rv with
                 | error x =>
-                  refine ⟨1 + (n2 + n1), k1 + k2 + 1, ?_⟩
+                  refine ⟨1 + (n2 + n1), k1 + k2 + 1, 0, ?_⟩
                   apply finish_instr hrun2 hop ctx.nd (Or.inr hol) 0 (by simp [storedArg, hol])
                   intro fuel
                   rw [step_binary_err M obj _ _ _ _ _ o hbin _ _ _ _ hb]
@@ -1025,7 +1047,7 @@ theorem step_E (ctx : Ctx M code) (f : Nat) (ih : SIH M obj code f) :
                     intro fuel
                     rw [hkop, step_constant M obj _ _ _ _ _ _ cn hget]
                     simp [Instr.size, hkop, Op.length]
-                  refine ⟨1 + (1 + (1 + (n2 + n1))), k1 + k2 + 1 + 1 + 1, ?_⟩
+                  refine ⟨1 + (1 + (1 + (n2 + n1))), k1 + k2 + 1 + 1 + 1, 0, ?_⟩
                   apply finish_instr hrun4 hset ctx.nd (Or.inr rfl) 0 (by simp [storedArg, Op.length])
                   intro fuel
                   rw [step_set]
@@ -1043,8 +1065,8 @@ theorem step_Rm (ctx : Ctx M code) (f : Nat) (ih : SIH M obj code f) :
       CodeAt code base r.1 → (∃ ex, M.consts = r.2.consts ++ ex) → endPos < code.length →
       base + Case.armSize v.size (Stmt.sizes b) es ≤ endPos →
       ∀ (stack : List Value) (env : Env) (out : Str) (polls depth : Nat), execArm M obj (f + 1) v es b env out ≠ .done .diverged →
-      ∃ n k, ∀ fuel, loop M obj code (fuel + n) base stack ⟨env, out, polls, depth⟩ =
-        afterA M obj code fuel endPos (base + Case.armSize v.size (Stmt.sizes b) es) stack (polls + k) depth
+      ∃ n k q, ∀ fuel, loop M obj code (fuel + n) base stack ⟨env, out, polls, depth⟩ =
+        afterA M obj code (fuel + q) endPos (base + Case.armSize v.size (Stmt.sizes b) es) stack (polls + k) depth
           (execArm M obj (f + 1) v es b env out) := by
   intro v es b base endPos cst r hpv hpes hpb h hc hp hend hle stack env out polls depth hnd
   have hlen := ctx.len
@@ -1052,7 +1074,7 @@ theorem step_Rm (ctx : Ctx M code) (f : Nat) (ih : SIH M obj code f) :
   | nil =>
     simp only [compileArm, pure, Except.pure] at h
     cases h
-    exact ⟨0, 0, fun fuel => by simp [execArm, afterA, Case.armSize]⟩
+    exact ⟨0, 0, 0, fun fuel => by simp [execArm, afterA, Case.armSize]⟩
   | cons e rest =>
     simp only [pureEs, Bool.and_eq_true] at hpes
     simp only [compileArm, bind_ok_eq, pure, Except.pure] at h
@@ -1109,7 +1131,7 @@ theorem step_Rm (ctx : Ctx M code) (f : Nat) (ih : SIH M obj code f) :
     cases hev : evalE M obj env v out with
     | mk res o1 =>
       cases res with
-      | error x => exact ⟨n1, k1, fun fuel => by rw [ih1 fuel, hev]; simp [after, afterA, afterS]⟩
+      | error x => exact ⟨n1, k1, 0, fun fuel => by rw [ih1 fuel, hev]; simp [after, afterA, afterS]⟩
       | ok vv =>
         simp only [hev] at hnd
         have hrun1 : ∀ fuel, loop M obj code (fuel + n1) base stack ⟨env, out, polls, depth⟩ =
@@ -1120,7 +1142,7 @@ theorem step_Rm (ctx : Ctx M code) (f : Nat) (ih : SIH M obj code f) :
         | mk res2 o2 =>
           cases res2 with
           | error x =>
-            refine ⟨n2 + n1, k1 + k2, ?_⟩
+            refine ⟨n2 + n1, k1 + k2, 0, ?_⟩
             apply chain hrun1 n2
             intro fuel; rw [ih2 fuel]; simp [hev2, after, afterA, afterS, Nat.add_assoc]
           | ok ev =>
@@ -1131,7 +1153,7 @@ theorem step_Rm (ctx : Ctx M code) (f : Nat) (ih : SIH M obj code f) :
               intro fuel; rw [ih2 fuel, hev2]; rfl
             cases hco : caseOp M vv ev with
             | error x =>
-              refine ⟨1 + (n2 + n1), k1 + k2 + 1, ?_⟩
+              refine ⟨1 + (n2 + n1), k1 + k2 + 1, 0, ?_⟩
               apply finish_instr hrun2 hcase ctx.nd (Or.inr rfl) 0 (by simp [storedArg, Op.length])
               intro fuel
               rw [step_case_err M obj _ _ _ _ _ _ x _ _ hco]
@@ -1154,26 +1176,24 @@ theorem step_Rm (ctx : Ctx M code) (f : Nat) (ih : SIH M obj code f) :
                   rw [step_jif M obj _ _ _ _ _ _ t (by omega)]
                   simp [ht, Instr.size, Op.length]
                 have hnd' : execSs M obj f b env (o2 ++ o3) ≠ .diverged := fun hd => hnd (by rw [hd])
-                obtain ⟨n3, k3, ih3⟩ := ih.Ss b _ _ _ hpb h3 hcb p3 stack env (o2 ++ o3) (polls + k1 + k2 + 1 + 1) depth hnd'
+                obtain ⟨n3, k3, e3, ih3⟩ := ih.Ss b _ _ _ hpb h3 hcb p3 stack env (o2 ++ o3) (polls + k1 + k2 + 1 + 1) depth hnd'
                 cases hb : execSs M obj f b env (o2 ++ o3) with
                 | diverged => exact absurd hb hnd'
                 | returned rv env' o' =>
-                  refine ⟨n3 + (1 + (1 + (n2 + n1))), k1 + k2 + 1 + 1 + k3, ?_⟩
+                  refine ⟨n3 + (1 + (1 + (n2 + n1))), k1 + k2 + 1 + 1 + k3, 0, ?_⟩
                   apply chain hrun4 n3
                   intro fuel; rw [ih3 fuel, hb]; simp [afterA, afterS, Nat.add_assoc]
                 | failed x env' o' =>
-                  refine ⟨n3 + (1 + (1 + (n2 + n1))), k1 + k2 + 1 + 1 + k3, ?_⟩
+                  refine ⟨n3 + (1 + (1 + (n2 + n1))), k1 + k2 + 1 + 1 + k3, 0, ?_⟩
                   apply chain hrun4 n3
                   intro fuel; rw [ih3 fuel, hb]; simp [afterA, afterS, Nat.add_assoc]
                 | normal env' o' =>
                   have hrun5 : ∀ fuel, loop M obj code (fuel + (n3 + (1 + (1 + (n2 + n1))))) base stack ⟨env, out, polls, depth⟩ =
-                      loop M obj code fuel (base + v.size + e.size + 1 + 3 + Stmt.sizes b) stack ⟨env', o', polls + k1 + k2 + 1 + 1 + k3, depth⟩ := by
+                      loop M obj code (fuel + e3) (base + v.size + e.size + 1 + 3 + Stmt.sizes b) stack ⟨env', o', polls + k1 + k2 + 1 + 1 + k3, depth⟩ := by
                     apply chain hrun4 n3
                     intro fuel; rw [ih3 fuel, hb]; rfl
-                  refine ⟨1 + (n3 + (1 + (1 + (n2 + n1)))), k1 + k2 + 1 + 1 + k3 + 1, ?_⟩
-                  apply finish_instr hrun5 hjmp ctx.nd (Or.inl ha2) _ ha2.symm
-                  intro fuel
-                  rw [step_jump M obj _ _ _ _ _ _ hend]
+                  refine ⟨1 + (n3 + (1 + (1 + (n2 + n1)))), k1 + k2 + 1 + 1 + k3 + 1, e3, fun fuel => ?_⟩
+                  rw [stepE hrun5 hjmp ctx.nd (Or.inl ha2) _ ha2.symm fuel, step_jump M obj _ _ _ _ _ _ hend]
                   simp [afterA, afterS, Nat.add_assoc]
               · simp only [ht, Bool.false_eq_true, ↓reduceIte] at hnd ⊢
                 have hrun4 : ∀ fuel, loop M obj code (fuel + (1 + (1 + (n2 + n1)))) base stack ⟨env, out, polls, depth⟩ =
@@ -1182,8 +1202,8 @@ theorem step_Rm (ctx : Ctx M code) (f : Nat) (ih : SIH M obj code f) :
                   intro fuel
                   rw [step_jif M obj _ _ _ _ _ _ t (by omega)]
                   simp [ht]
-                obtain ⟨n3, k3, ih3⟩ := ih.Rm v rest b _ endPos _ _ hpv hpes.2 hpb h4 hcr hp hend (by omega) stack env (o2 ++ o3) (polls + k1 + k2 + 1 + 1) depth hnd
-                refine ⟨n3 + (1 + (1 + (n2 + n1))), k1 + k2 + 1 + 1 + k3, ?_⟩
+                obtain ⟨n3, k3, e3, ih3⟩ := ih.Rm v rest b _ endPos _ _ hpv hpes.2 hpb h4 hcr hp hend (by omega) stack env (o2 ++ o3) (polls + k1 + k2 + 1 + 1) depth hnd
+                refine ⟨n3 + (1 + (1 + (n2 + n1))), k1 + k2 + 1 + 1 + k3, e3, ?_⟩
                 apply chain hrun4 n3
                 intro fuel
                 rw [ih3 fuel, hsz]
@@ -1196,15 +1216,15 @@ theorem step_Am (ctx : Ctx M code) (f : Nat) (ih : SIH M obj code f) :
       CodeAt code base r.1 → (∃ ex, M.consts = r.2.consts ++ ex) → endPos < code.length →
       base + Case.armsSize v.size cs ≤ endPos →
       ∀ (stack : List Value) (env : Env) (out : Str) (polls depth : Nat), execArms M obj (f + 1) v cs env out ≠ .done .diverged →
-      ∃ n k, ∀ fuel, loop M obj code (fuel + n) base stack ⟨env, out, polls, depth⟩ =
-        afterA M obj code fuel endPos (base + Case.armsSize v.size cs) stack (polls + k) depth
+      ∃ n k q, ∀ fuel, loop M obj code (fuel + n) base stack ⟨env, out, polls, depth⟩ =
+        afterA M obj code (fuel + q) endPos (base + Case.armsSize v.size cs) stack (polls + k) depth
           (execArms M obj (f + 1) v cs env out) := by
   intro v cs base endPos cst r hpv hpc h hc hp hend hle stack env out polls depth hnd
   cases cs with
   | nil =>
     simp only [compileArms, pure, Except.pure] at h
     cases h
-    exact ⟨0, 0, fun fuel => by simp [execArms, afterA, Case.armsSize]⟩
+    exact ⟨0, 0, 0, fun fuel => by simp [execArms, afterA, Case.armsSize]⟩
   | cons c rest =>
     obtain ⟨isDef, es, b⟩ := c
     simp only [pureCases, Bool.and_eq_true] at hpc
@@ -1232,37 +1252,36 @@ theorem step_Am (ctx : Ctx M code) (f : Nat) (ih : SIH M obj code f) :
         have := hc.right; rwa [s1] at this
       have hnd1 : execArm M obj f v es b env out ≠ .done .diverged := by
         intro hx; rw [hx] at hnd; exact hnd rfl
-      obtain ⟨n1, k1, ih1⟩ := ih.Rm v es b base endPos cst _ hpv hpc.1.1 hpc.1.2 h1 hca (pool_trans hp r2.ext) hend (by omega)
+      obtain ⟨n1, k1, e1, ih1⟩ := ih.Rm v es b base endPos cst _ hpv hpc.1.1 hpc.1.2 h1 hca (pool_trans hp r2.ext) hend (by omega)
         stack env out polls depth hnd1
       cases ha : execArm M obj f v es b env out with
       | done o =>
-        refine ⟨n1, k1, fun fuel => ?_⟩
+        refine ⟨n1, k1, e1, fun fuel => ?_⟩
         rw [ih1 fuel, ha]
         simp [afterA]
       | next env' out' =>
         simp only [ha] at hnd ⊢
         have hrun1 : ∀ fuel, loop M obj code (fuel + n1) base stack ⟨env, out, polls, depth⟩ =
-            loop M obj code fuel (base + Case.armSize v.size (Stmt.sizes b) es) stack ⟨env', out', polls + k1, depth⟩ := by
+            loop M obj code (fuel + e1) (base + Case.armSize v.size (Stmt.sizes b) es) stack ⟨env', out', polls + k1, depth⟩ := by
           intro fuel; rw [ih1 fuel, ha]; rfl
-        obtain ⟨n2, k2, ih2⟩ := ih.Am v rest _ endPos _ _ hpv hpc.2 h2 hcr hp hend (by omega) stack env' out' (polls + k1) depth hnd
-        refine ⟨n2 + n1, k1 + k2, ?_⟩
-        apply chain hrun1 n2
-        intro fuel
-        rw [ih2 fuel]
+        obtain ⟨n2, k2, e2, ih2⟩ := ih.Am v rest _ endPos _ _ hpv hpc.2 h2 hcr hp hend (by omega) stack env' out' (polls + k1) depth hnd
+        have h3 := chainE (f := fun y => loop M obj code y (base + Case.armSize v.size (Stmt.sizes b) es) stack ⟨env', out', polls + k1, depth⟩) hrun1 n2 ih2
+        refine ⟨n2 + n1, k1 + k2, e1 + e2, fun fuel => ?_⟩
+        rw [h3 fuel]
         simp [Nat.add_assoc]
 
 theorem step_Dm (ctx : Ctx M code) (f : Nat) (ih : SIH M obj code f) :
     ∀ (cs : List Case) (base : Nat) (cst : CState) (r : List Instr × CState), pureCases cs = true →
       compileDefaults cs base cst = .ok r → CodeAt code base r.1 → (∃ ex, M.consts = r.2.consts ++ ex) →
       ∀ (stack : List Value) (env : Env) (out : Str) (polls depth : Nat), execDefaults M obj (f + 1) cs env out ≠ .diverged →
-      ∃ n k, ∀ fuel, loop M obj code (fuel + n) base stack ⟨env, out, polls, depth⟩ =
-        afterS M obj code fuel (base + Case.defaultsSize cs) stack (polls + k) depth (execDefaults M obj (f + 1) cs env out) := by
+      ∃ n k q, ∀ fuel, loop M obj code (fuel + n) base stack ⟨env, out, polls, depth⟩ =
+        afterS M obj code (fuel + q) (base + Case.defaultsSize cs) stack (polls + k) depth (execDefaults M obj (f + 1) cs env out) := by
   intro cs base cst r hpc h hc hp stack env out polls depth hnd
   cases cs with
   | nil =>
     simp only [compileDefaults, pure, Except.pure] at h
     cases h
-    exact ⟨0, 0, fun fuel => by simp [execDefaults, afterS, Case.defaultsSize]⟩
+    exact ⟨0, 0, 0, fun fuel => by simp [execDefaults, afterS, Case.defaultsSize]⟩
   | cons c rest =>
     obtain ⟨isDef, es, b⟩ := c
     simp only [pureCases, Bool.and_eq_true] at hpc
@@ -1284,21 +1303,20 @@ theorem step_Dm (ctx : Ctx M code) (f : Nat) (ih : SIH M obj code f) :
         have := hc.right; rwa [s1] at this
       have hnd1 : execSs M obj f b env out ≠ .diverged := by
         intro hx; rw [hx] at hnd; exact hnd rfl
-      obtain ⟨n1, k1, ih1⟩ := ih.Ss b base cst _ hpc.1.2 h1 hcb (pool_trans hp r2.ext) stack env out polls depth hnd1
+      obtain ⟨n1, k1, e1, ih1⟩ := ih.Ss b base cst _ hpc.1.2 h1 hcb (pool_trans hp r2.ext) stack env out polls depth hnd1
       cases hb : execSs M obj f b env out with
       | diverged => exact absurd hb hnd1
-      | returned rv env' o' => exact ⟨n1, k1, fun fuel => by rw [ih1 fuel, hb]; simp [afterS]⟩
-      | failed x env' o' => exact ⟨n1, k1, fun fuel => by rw [ih1 fuel, hb]; simp [afterS]⟩
+      | returned rv env' o' => exact ⟨n1, k1, 0, fun fuel => by rw [ih1 fuel, hb]; simp [afterS]⟩
+      | failed x env' o' => exact ⟨n1, k1, 0, fun fuel => by rw [ih1 fuel, hb]; simp [afterS]⟩
       | normal env' o' =>
         simp only [hb] at hnd ⊢
         have hrun1 : ∀ fuel, loop M obj code (fuel + n1) base stack ⟨env, out, polls, depth⟩ =
-            loop M obj code fuel (base + Stmt.sizes b) stack ⟨env', o', polls + k1, depth⟩ := by
+            loop M obj code (fuel + e1) (base + Stmt.sizes b) stack ⟨env', o', polls + k1, depth⟩ := by
           intro fuel; rw [ih1 fuel, hb]; rfl
-        obtain ⟨n2, k2, ih2⟩ := ih.Dm rest _ _ _ hpc.2 h2 hcr hp stack env' o' (polls + k1) depth hnd
-        refine ⟨n2 + n1, k1 + k2, ?_⟩
-        apply chain hrun1 n2
-        intro fuel
-        rw [ih2 fuel]
+        obtain ⟨n2, k2, e2, ih2⟩ := ih.Dm rest _ _ _ hpc.2 h2 hcr hp stack env' o' (polls + k1) depth hnd
+        have h3 := chainE (f := fun y => loop M obj code y (base + Stmt.sizes b) stack ⟨env', o', polls + k1, depth⟩) hrun1 n2 ih2
+        refine ⟨n2 + n1, k1 + k2, e1 + e2, fun fuel => ?_⟩
+        rw [h3 fuel]
         simp [Nat.add_assoc]
     | false =>
       simp only [Bool.false_eq_true, ↓reduceIte] at h hnd ⊢
@@ -1313,8 +1331,8 @@ theorem step_I (ctx : Ctx M code) (f : Nat) (ih : SIH M obj code f) :
       compileExpr (.foreachE idx x v body) base cst = .ok r → CodeAt code base r.1 → (∃ ex, M.consts = r.2.consts ++ ex) →
       ∀ (it : Value) (k : Nat) (stack : List Value) (env : Env) (out : Str) (polls depth : Nat),
         execIter M obj (f + 1) idx x body it k env out ≠ .diverged →
-      ∃ n k', ∀ fuel, loop M obj code (fuel + n) (base + v.size + 1) (.iterating it k :: stack) ⟨env, out, polls, depth⟩ =
-        afterS M obj code fuel (base + (Expr.foreachE idx x v body).size) stack (polls + k') depth
+      ∃ n k' q, ∀ fuel, loop M obj code (fuel + n) (base + v.size + 1) (.iterating it k :: stack) ⟨env, out, polls, depth⟩ =
+        afterS M obj code (fuel + q) (base + (Expr.foreachE idx x v body).size) stack (polls + k') depth
           (execIter M obj (f + 1) idx x body it k env out) := by
   intro idx x v body base cst r hpv hpb h hc hp it k stack env out polls depth hnd
   obtain ⟨cv, st1, cb, ci, cx, L⟩ := foreach_layout h hc hp
@@ -1369,7 +1387,7 @@ theorem step_I (ctx : Ctx M code) (f : Nat) (ih : SIH M obj code f) :
     simp only [hin] at hnd ⊢
     cases hrs : env.removeScope with
     | none =>
-      refine ⟨1 + (1 + (1 + 0)), 1 + 1 + 1, ?_⟩
+      refine ⟨1 + (1 + (1 + 0)), 1 + 1 + 1, 0, ?_⟩
       apply finish_instr hrun2 hnext ctx.nd (Or.inr rfl) 0 (by simp [storedArg, Op.length])
       intro fuel
       rw [step_iterNext_noscope M obj _ _ _ _ _ _ _ _ _ _ hin hrs]
@@ -1387,7 +1405,7 @@ theorem step_I (ctx : Ctx M code) (f : Nat) (ih : SIH M obj code f) :
         intro fuel
         rw [step_jif M obj _ _ _ _ _ _ (.bool false) (by omega)]
         simp [Value.truthy]
-      refine ⟨1 + (1 + (1 + (1 + (1 + 0)))), 1 + 1 + 1 + 1 + 1, ?_⟩
+      refine ⟨1 + (1 + (1 + (1 + (1 + 0)))), 1 + 1 + 1 + 1 + 1, 0, ?_⟩
       apply finish_instr hrun4 (hph.cast (by omega)) ctx.nd (Or.inr rfl) 0 (by simp [storedArg, Op.length])
       intro fuel
       rw [step_placeholder]
@@ -1413,38 +1431,36 @@ theorem step_I (ctx : Ctx M code) (f : Nat) (ih : SIH M obj code f) :
     cases ob with
     | diverged => simp at hnd
     | returned rv env' o' =>
-      obtain ⟨n2, k2, ih2⟩ := ih.Ss body _ _ _ hpb L.hb L.atBody L.poolB (.iterating it (k + 1) :: stack) (if idx.isEmpty then env.declare x val else (env.declare x val).declare idx i) out (polls + 1 + 1 + 1 + 1) depth (by rw [hb]; simp)
-      refine ⟨n2 + (1 + (1 + (1 + (1 + 0)))), 1 + 1 + 1 + 1 + k2, ?_⟩
+      obtain ⟨n2, k2, e2, ih2⟩ := ih.Ss body _ _ _ hpb L.hb L.atBody L.poolB (.iterating it (k + 1) :: stack) (if idx.isEmpty then env.declare x val else (env.declare x val).declare idx i) out (polls + 1 + 1 + 1 + 1) depth (by rw [hb]; simp)
+      refine ⟨n2 + (1 + (1 + (1 + (1 + 0)))), 1 + 1 + 1 + 1 + k2, 0, ?_⟩
       apply chain hrun4 n2
       intro fuel
       have e : base + v.size + 1 + 3 + 3 + 1 + 3 = base + v.size + 11 := by omega
       rw [← e, ih2 fuel, hb]; simp [afterS, Nat.add_assoc]
     | failed e' env' o' =>
-      obtain ⟨n2, k2, ih2⟩ := ih.Ss body _ _ _ hpb L.hb L.atBody L.poolB (.iterating it (k + 1) :: stack) (if idx.isEmpty then env.declare x val else (env.declare x val).declare idx i) out (polls + 1 + 1 + 1 + 1) depth (by rw [hb]; simp)
-      refine ⟨n2 + (1 + (1 + (1 + (1 + 0)))), 1 + 1 + 1 + 1 + k2, ?_⟩
+      obtain ⟨n2, k2, e2, ih2⟩ := ih.Ss body _ _ _ hpb L.hb L.atBody L.poolB (.iterating it (k + 1) :: stack) (if idx.isEmpty then env.declare x val else (env.declare x val).declare idx i) out (polls + 1 + 1 + 1 + 1) depth (by rw [hb]; simp)
+      refine ⟨n2 + (1 + (1 + (1 + (1 + 0)))), 1 + 1 + 1 + 1 + k2, 0, ?_⟩
       apply chain hrun4 n2
       intro fuel
       have e : base + v.size + 1 + 3 + 3 + 1 + 3 = base + v.size + 11 := by omega
       rw [← e, ih2 fuel, hb]; simp [afterS, Nat.add_assoc]
     | normal env' o' =>
-      obtain ⟨n2, k2, ih2⟩ := ih.Ss body _ _ _ hpb L.hb L.atBody L.poolB (.iterating it (k + 1) :: stack) (if idx.isEmpty then env.declare x val else (env.declare x val).declare idx i) out (polls + 1 + 1 + 1 + 1) depth (by rw [hb]; simp)
+      obtain ⟨n2, k2, e2, ih2⟩ := ih.Ss body _ _ _ hpb L.hb L.atBody L.poolB (.iterating it (k + 1) :: stack) (if idx.isEmpty then env.declare x val else (env.declare x val).declare idx i) out (polls + 1 + 1 + 1 + 1) depth (by rw [hb]; simp)
       simp only at hnd
       have hrun5 : ∀ fuel, loop M obj code (fuel + (n2 + (1 + (1 + (1 + (1 + 0)))))) (base + v.size + 1) (.iterating it k :: stack) ⟨env, out, polls, depth⟩ =
-          loop M obj code fuel (base + v.size + 11 + Stmt.sizes body) (.iterating it (k + 1) :: stack) ⟨env', o', polls + 1 + 1 + 1 + 1 + k2, depth⟩ := by
+          loop M obj code (fuel + e2) (base + v.size + 11 + Stmt.sizes body) (.iterating it (k + 1) :: stack) ⟨env', o', polls + 1 + 1 + 1 + 1 + k2, depth⟩ := by
         apply chain hrun4 n2
         intro fuel
         have e : base + v.size + 1 + 3 + 3 + 1 + 3 = base + v.size + 11 := by omega
         rw [← e, ih2 fuel, hb]; simp [afterS, e]
       have hrun6 : ∀ fuel, loop M obj code (fuel + (1 + (n2 + (1 + (1 + (1 + (1 + 0))))))) (base + v.size + 1) (.iterating it k :: stack) ⟨env, out, polls, depth⟩ =
-          loop M obj code fuel (base + v.size + 1) (.iterating it (k + 1) :: stack) ⟨env', o', polls + 1 + 1 + 1 + 1 + k2 + 1, depth⟩ := by
-        apply finish_instr hrun5 hjmp ctx.nd (Or.inl ha2) _ ha2.symm
+          loop M obj code (fuel + e2) (base + v.size + 1) (.iterating it (k + 1) :: stack) ⟨env', o', polls + 1 + 1 + 1 + 1 + k2 + 1, depth⟩ := by
         intro fuel
-        rw [step_jump M obj _ _ _ _ _ _ (by omega)]
-      obtain ⟨n3, k3, ih3⟩ := ih.I idx x v body base cst r hpv hpb h hc hp it (k + 1) stack env' o' (polls + 1 + 1 + 1 + 1 + k2 + 1) depth hnd
-      refine ⟨n3 + (1 + (n2 + (1 + (1 + (1 + (1 + 0)))))), 1 + 1 + 1 + 1 + k2 + 1 + k3, ?_⟩
-      apply chain hrun6 n3
-      intro fuel
-      rw [ih3 fuel]; simp [Nat.add_assoc]
+        rw [stepE hrun5 hjmp ctx.nd (Or.inl ha2) _ ha2.symm fuel, step_jump M obj _ _ _ _ _ _ (by omega)]
+      obtain ⟨n3, k3, e3, ih3⟩ := ih.I idx x v body base cst r hpv hpb h hc hp it (k + 1) stack env' o' (polls + 1 + 1 + 1 + 1 + k2 + 1) depth hnd
+      have h7 := chainE (f := fun y => loop M obj code y (base + v.size + 1) (.iterating it (k + 1) :: stack) ⟨env', o', polls + 1 + 1 + 1 + 1 + k2 + 1, depth⟩) hrun6 n3 ih3
+      refine ⟨n3 + (1 + (n2 + (1 + (1 + (1 + (1 + 0)))))), 1 + 1 + 1 + 1 + k2 + 1 + k3, e2 + e3, fun fuel => ?_⟩
+      rw [h7 fuel]; simp [Nat.add_assoc]
 
 /-- **Statements run as the language defines**, for every budget of the semantics -/
 theorem SIH_all (ctx : Ctx M code) : ∀ f, SIH M obj code f
@@ -1547,7 +1563,7 @@ theorem program_correct (prog : Program) (hp : pureSs prog = true) (hne : prog 
         have hlenb : (encodeAll code).length = codeSize code := encodeAll_length _
         have ctx : Ctx M M.main := ⟨fun n => by rw [hdone], by rw [hmain, hlenb]; exact hs1, by rw [hconsts]; exact hs2⟩
         have hcode : CodeAt M.main 0 code := ⟨[], [], by rw [hmain]; simp, rfl⟩
-        obtain ⟨n1, k1, ih⟩ := (SIH_all (obj := obj) ctx f).Ss prog 0 ⟨[], []⟩ _ hp hcomp hcode ⟨[], by simp [hconsts]⟩ [] env out polls depth hnd
+        obtain ⟨n1, k1, q1, ih⟩ := (SIH_all (obj := obj) ctx f).Ss prog 0 ⟨[], []⟩ _ hp hcomp hcode ⟨[], by simp [hconsts]⟩ [] env out polls depth hnd
         have hmlen : M.main.length = Stmt.sizes prog := by rw [hmain, hlenb, hsz]
         have hnempty : M.main.isEmpty = false := by
           cases prog with
@@ -1569,6 +1585,7 @@ theorem program_correct (prog : Program) (hp : pureSs prog = true) (hne : prog 
         | normal env' o' =>
           simp only [afterS, programResult, Nat.zero_add]
           have hge : Stmt.sizes prog ≥ M.main.length := by omega
+          rw [show fuel + 1 + q1 = (fuel + q1) + 1 by omega]
           simp [loop, hge, Env.truncate]
         | returned v env' o' => simp [afterS, programResult, Env.truncate]
         | failed x env' o' => simp [afterS, programResult, Env.truncate]
